@@ -85,12 +85,24 @@ func implHistory(cs Case) ImplResult {
 			hist = append(hist, GenDoc(rng))
 		}
 	}
+	// a pair of same-length, same-offset link documents (an accepted URL, then a dangerous one): stale per-slice state shows here
+	if rng.Chance(60) {
+		pairs := [][2]string{
+			{"[a](https://example.com/aaaaaaa)\n", "[a](javascript:alert(1)//aaaaaa)\n"},
+			{"![i](https://example.com/iiiiiii)\n", "![i](javascript:alert(1)//iiiiii)\n"},
+			{"<https://example.com/aaaaaaa>\n", "<javascript:alert(1)//aaaaaa>\n"},
+			{"x[^1]\n\n[^1]: one\n", "x[^1] y[^1]\n\n[^1]: two\n"},
+		}
+		pr := pairs[rng.Intn(len(pairs))]
+		hist = append(hist, []byte(pr[0]), []byte(pr[1]))
+	}
 	// always end with probes
 	hist = append(hist, []byte(probes[rng.Intn(len(probes))]), []byte(probes[rng.Intn(len(probes))]))
 	shared := c.Build()
 	reuse := rng.Chance(50) // half of the histories feed every source through one reused buffer (as a server reading requests would)
 	var reusedBuf [4096]byte
 	var fails []OracleFail
+	var checks []ModelCheck
 	fail := func(clause, f string, a ...interface{}) {
 		if len(fails) < 3 {
 			fails = append(fails, OracleFail{"C06", clause, fmt.Sprintf(f, a...)})
@@ -113,6 +125,10 @@ func implHistory(cs Case) ImplResult {
 		} else {
 			doc := shared.Parser().Parse(text.NewReader(src))
 			_ = shared.Renderer().Render(&got, src, doc)
+		}
+		if !c.Unsafe {
+			// C04's own oracle (Lean-defined) on what the long-used instance wrote
+			checks = append(checks, ModelCheck{Line: "tok urls " + hx(got.Bytes()), Property: "C04"})
 		}
 		if !bytes.Equal(got.Bytes(), want.Bytes()) {
 			fail("history-dependent-output", "step %d (mode %d) of history: source %q gives %q on the used instance, %q on a fresh one", step, mode, src, got.Bytes(), want.Bytes())
@@ -138,5 +154,5 @@ func implHistory(cs Case) ImplResult {
 			fail("render-alters-tree", "source %q: tree dump differs after rendering", src)
 		}
 	}
-	return ImplResult{Out: "ok", NoModel: true, Fails: fails, Key: cs.Args[0] + "|" + cs.Args[1]}
+	return ImplResult{Out: "ok", NoModel: true, Fails: fails, Checks: checks, Key: cs.Args[0] + "|" + cs.Args[1]}
 }
